@@ -86,37 +86,41 @@ def roundtrip(ctx, job):
         # (1) what arrived at the backend for this request
         arrived = [x for x in mgrA.sent[(1 if old is not None else 0):]]
         name = bytes(orig[0]).upper()
-        if name in (b'MSET',):
-            # split into SET sub-commands, one per pair
-            ok_shape = len(arrived) == len(stored) and all(len(a) == 3 and as_bytes(a[0]) == b'SET' for a in arrived)
-            items.append(('backend-sees-same-command', 'C20/request-altered/' + wname, ok_shape, lambda m: wit(m, lambda m: {'arrived': [[show(el, m) for el in a] for a in arrived]})))
+        # the backend may see the multi-key writes split into single writes or as one command: what counts is the set of
+        # (key, stored value) pairs and that nothing else of the request changed
+        def pairs_of(cmd):
+            nm = as_bytes(cmd[0]); nm = nm.upper() if nm is not None else None
+            if nm in (b'MSET', b'MSETNX'): return [(cmd[i], cmd[i + 1], i, i + 1) for i in range(1, len(cmd) - 1, 2)] if len(cmd) % 2 == 1 else None
+            if nm in (b'SET', b'SETNX', b'GETSET') and len(cmd) >= 3: return [(cmd[1], cmd[2], 1, 2)]
+            if nm in (b'SETEX', b'PSETEX') and len(cmd) == 4: return [(cmd[1], cmd[3], 1, 3)]
+            return None
+        def arrived_wit(m): return wit(m, lambda m: {'arrived': [[show(el, m) for el in a] for a in arrived]})
+        if name in (b'MSET', b'MSETNX'):
+            got = []
+            ok_shape = len(arrived) >= 1
+            for a in arrived:
+                ps = pairs_of(a)
+                if ps is None: ok_shape = False; break
+                got += [(k_, v_) for k_, v_, _, _ in ps]
+            ok_shape = ok_shape and len(got) == len(stored)
+            items.append(('backend-sees-same-command', 'C20/request-altered/' + wname, ok_shape, arrived_wit))
             if ok_shape:
-                for a, (k, vi) in zip(arrived, stored):
-                    items.append(('key-unaltered', 'C20/key-altered/' + wname, bytes_eq(a[1], L(k)), lambda m: wit(m)))
-                    isf, payload = decoded(a[2]) if strategy != 'Disabled' else (True, a[2])
-                    items.append(('value-recoverable', 'C20/stored-value-not-recoverable/' + wname, zand([isf, bytes_eq(payload, vals[vi])]) if payload is not None else False, lambda m: wit(m)))
-        elif name == b'MSETNX':
-            flat = [el for a in arrived for el in a[1:]]
-            ok_shape = len(arrived) >= 1 and all(as_bytes(a[0]) == b'MSETNX' for a in arrived) and len(flat) == len(orig) - 1
-            items.append(('backend-sees-same-command', 'C20/request-altered/' + wname, ok_shape, lambda m: wit(m, lambda m: {'arrived': [[show(el, m) for el in a] for a in arrived]})))
-            if ok_shape:
-                for i, el in enumerate(flat):
-                    j = i + 1
-                    if j in vpos:
-                        isf, payload = decoded(el) if strategy != 'Disabled' else (True, el)
-                        items.append(('value-recoverable', 'C20/stored-value-not-recoverable/' + wname, zand([isf, bytes_eq(payload, vals[vpos[j]])]) if payload is not None else False, lambda m: wit(m)))
-                    else:
-                        items.append(('key-unaltered', 'C20/key-altered/' + wname, bytes_eq(el, orig[j]), lambda m: wit(m)))
+                for (k, vi) in stored:
+                    match = [(k_, v_) for k_, v_ in got if as_bytes(k_) == k]
+                    items.append(('key-unaltered', 'C20/key-altered/' + wname, len(match) == 1, arrived_wit))
+                    if len(match) == 1:
+                        isf, payload = decoded(match[0][1]) if strategy != 'Disabled' else (True, match[0][1])
+                        items.append(('value-recoverable', 'C20/stored-value-not-recoverable/' + wname, zand([isf, bytes_eq(payload, vals[vi])]) if payload is not None else False, arrived_wit))
         else:
             ok_shape = len(arrived) == 1 and len(arrived[0]) == len(orig)
-            items.append(('backend-sees-same-command', 'C20/request-altered/' + wname, ok_shape, lambda m: wit(m, lambda m: {'arrived': [[show(el, m) for el in a] for a in arrived]})))
+            items.append(('backend-sees-same-command', 'C20/request-altered/' + wname, ok_shape, arrived_wit))
             if ok_shape:
                 for j, el in enumerate(arrived[0]):
                     if j in vpos:
                         isf, payload = decoded(el) if strategy != 'Disabled' else (True, el)
-                        items.append(('value-recoverable', 'C20/stored-value-not-recoverable/' + wname, zand([isf, bytes_eq(payload, vals[vpos[j]])]) if payload is not None else False, lambda m: wit(m)))
+                        items.append(('value-recoverable', 'C20/stored-value-not-recoverable/' + wname, zand([isf, bytes_eq(payload, vals[vpos[j]])]) if payload is not None else False, arrived_wit))
                     else:
-                        items.append(('non-value-argument-unaltered', 'C20/argument-altered/%s/arg%d' % (wname, j), bytes_eq(el, orig[j]), lambda m: wit(m)))
+                        items.append(('non-value-argument-unaltered', 'C20/argument-altered/%s/arg%d' % (wname, j), bytes_eq(el, orig[j]), arrived_wit))
         # (2) the reply to the write
         nx_blocked = old is not None and (name == b'SETNX' or name == b'MSETNX' or (name == b'SET' and any(bytes(x).upper() == b'NX' for x in orig[3:] if as_bytes(x) is not None)))
         if name == b'GETSET':
